@@ -1,5 +1,6 @@
 mod c02;
 mod c03;
+mod c04;
 mod c05;
 mod fault;
 mod core;
@@ -121,6 +122,7 @@ fn make_check(id: &str) -> Box<dyn core::Check> {
             Box::new(c)
         }
         "C03" => Box::new(c03::C03::new()),
+        "C04" => Box::new(c04::C04::new()),
         "C05" => {
             let c = c05::C05::new();
             c02::register_opcodes(&c.ctx);
